@@ -169,6 +169,23 @@ func (r *runner) runUnits(units []*unit, dump bool) []triple {
 	if err != nil {
 		if be, ok := err.(*gjs.BuildError); ok {
 			if len(units) > 1 {
+				// the error text usually names the package of the scenario the compiler fails
+				// on: run those scenarios alone and the others together (bisection otherwise)
+				var named, others []*unit
+				for _, u := range units {
+					if strings.Contains(be.Error(), u.tag+".") || strings.Contains(be.Error(), "/"+u.tag+"/") || strings.Contains(be.Error(), "vp/"+u.tag) {
+						named = append(named, u)
+					} else {
+						others = append(others, u)
+					}
+				}
+				if len(named) > 0 && len(named) <= 4 && len(others) > 0 {
+					var out []triple
+					for _, u := range named {
+						out = append(out, r.runUnits([]*unit{u}, dump)...)
+					}
+					return append(out, r.runUnits(others, dump)...)
+				}
 				return r.bisect(units, dump)
 			}
 			// a single scenario the compiler rejects: decided by the guard below
